@@ -12,6 +12,8 @@ import (
 	"fmt"
 	"math/big"
 	"net"
+	"os"
+	"strconv"
 	"sync"
 	"sync/atomic"
 	"time"
@@ -106,12 +108,13 @@ func testTLS() (*tls.Config, *tls.Config) {
 }
 
 // TransportPair returns connected client and server transports of the given kind:
-//   inproc  – the in-process transport
-//   mem     – the real TCP transport over an in-memory connection (hook H1)
-//   memtls  – same, with TLS configurations available for negotiation
-//   tcp     – the real TCP transport over a loopback socket
-//   tcptls  – same with TLS configurations
-//   ws, wss – WebSocket over loopback
+//
+//	inproc  – the in-process transport
+//	mem     – the real TCP transport over an in-memory connection (hook H1)
+//	memtls  – same, with TLS configurations available for negotiation
+//	tcp     – the real TCP transport over a loopback socket
+//	tcptls  – same with TLS configurations
+//	ws, wss – WebSocket over loopback
 func TransportPair(kind string, bufSize int) (ct, st lime.Transport, p *Pair, err error) {
 	p = &Pair{Kind: kind}
 	ctx, cancel := context.WithTimeout(context.Background(), 10*time.Second)
@@ -269,9 +272,19 @@ func EstablishedPair(kind string, bufSize int) (*Pair, error) {
 	return p, nil
 }
 
-// waitUntil polls cond every 50µs up to d; reports whether cond became true.
+// slack scales every bounded wait of the harness (VERIF_SLACK, default 1). The driver re-runs a
+// case that disagreed with a large slack before it believes the disagreement, so that a machine
+// under load cannot turn a late observation into an alarm.
+var slack = func() time.Duration {
+	if v, err := strconv.Atoi(os.Getenv("VERIF_SLACK")); err == nil && v >= 1 && v <= 100 {
+		return time.Duration(v)
+	}
+	return 1
+}()
+
+// waitUntil polls cond every 50µs up to d (times slack); reports whether cond became true.
 func waitUntil(d time.Duration, cond func() bool) bool {
-	deadline := time.Now().Add(d)
+	deadline := time.Now().Add(d * slack)
 	for {
 		if cond() {
 			return true
